@@ -203,8 +203,9 @@ class GraphParser:
     _RE_NODE = _RE_SUICIDE + TaskID.NAME_RE
     _RE_NODE_OR_XTRIG = r'(?:[!@])?' + TaskID.NAME_RE
     # Task name boundaries (like \b, but "-+%@" are task name characters too,
-    # so that e.g. "a" is not matched inside "a-b" or "b+a").
-    _RE_NAME_START = r'(?<![\w\-+%@])'
+    # so that e.g. "a" is not matched inside "a-b" or "b+a", nor as the
+    # qualifier of "foo:a").
+    _RE_NAME_START = r'(?<![\w\-+%@:])'
     _RE_NAME_END = r'(?![\w\-+%@])'
     _RE_PARAMS = r'<[\w,=\-+]+>'
     _RE_OFFSET = r'\[[\w\-\+\^:]+\]'
